@@ -50,10 +50,7 @@ def _flatten(errors, main, emb):
     return out
 
 
-def _compile(job):
-    from . import emb
-    jid, files, main = job
-    res = {"id": jid, "acc": False, "stage": "", "exc": "", "exc_text": "", "errs": []}
+def _compile_inner(jid, files, main, res, emb):
     try:
         glue, hg, _ = emb._mods()
         ir, _dbg, errors = glue.parse_emboss_file(main, emb.reader_for(files))
@@ -68,6 +65,21 @@ def _compile(job):
             return res
         res["acc"] = True
         return res
+    finally:
+        # the front end keeps every parsed text for the life of the process; drop ours (not the
+        # prelude's) so that a worker compiling tens of thousands of modules stays small
+        cache = getattr(glue, "_cached_modules", None) if "glue" in locals() else None
+        if isinstance(cache, dict):
+            for k in [k for k in cache if isinstance(k, tuple) and len(k) == 2 and k[1] in files]:
+                del cache[k]
+
+
+def _compile(job):
+    from . import emb
+    jid, files, main = job
+    res = {"id": jid, "acc": False, "stage": "", "exc": "", "exc_text": "", "errs": []}
+    try:
+        return _compile_inner(jid, files, main, res, emb)
     except RecursionError as e:  # still an exception of the compiler
         res["exc"] = _exc_key(e)
         res["exc_text"] = "RecursionError"
@@ -78,15 +90,56 @@ def _compile(job):
         return res
 
 
+_POOL = None
+
+
+def jobs_limit():
+    """How many processes a check may keep busy at once (env VERIF_JOBS; default: cores - 4)."""
+    try:
+        n = int(os.environ.get("VERIF_JOBS", "0"))
+    except ValueError:
+        n = 0
+    return n if n > 0 else max(2, NCPU - 4)
+
+
+def _pool(nproc):
+    """One pool per check process.  The compiler is imported ONCE, in the parent, before forking:
+    the import costs seconds (much more on a loaded machine) and forked workers share it."""
+    global _POOL
+    if _POOL is None:
+        _init()
+        import gc
+        gc.collect()
+        gc.freeze()          # keep the imported compiler out of the children's collector (no COW storms)
+        ctx = mp.get_context("fork")
+        _POOL = ctx.Pool(nproc)
+        import atexit
+        atexit.register(close)
+    return _POOL
+
+
+def warm(nproc=None):
+    """Fork the workers now, while the calling process is still small."""
+    _pool(max(1, nproc or jobs_limit()))
+
+
+def close():
+    global _POOL
+    if _POOL is not None:
+        _POOL.terminate()
+        _POOL.join()
+        _POOL = None
+
+
 def compile_all(jobs, nproc=None):
     """jobs: list of (id, files, main).  Results in job order."""
     jobs = list(jobs)
     if not jobs:
         return []
-    nproc = max(1, min(nproc or max(2, NCPU - 4), len(jobs)))
-    ctx = mp.get_context("fork")
+    nproc = max(1, nproc or jobs_limit())
     try:
-        with ctx.Pool(nproc, initializer=_init) as pool:
-            return pool.map(_compile, jobs, chunksize=max(1, min(64, len(jobs) // (nproc * 4) or 1)))
+        pool = _pool(nproc)
+        return pool.map(_compile, jobs, chunksize=max(1, min(32, len(jobs) // (nproc * 4) or 1)))
     except Exception as e:  # pool trouble is machinery, not a verdict
+        close()
         raise MachineryError("compile pool failed: %r" % (e,)) from e
